@@ -125,9 +125,9 @@ type traced struct {
 }
 
 // RandomHistories is M3: n generated bundles, spread over the configurations.
-func RandomHistories(ctx *core.Ctx, n int) {
+func RandomHistories(ctx *core.Ctx, n int, extra []traced) {
 	r := rand.New(rand.NewSource(ctx.Seed))
-	var all []traced
+	all := append([]traced{}, extra...)
 	histories, steps := 0, 0
 	for ci, cfg := range Configs {
 		restore, err := Install(cfg)
